@@ -24,6 +24,9 @@ THEOREMS = [
     "RedunModel.C22.returned_op_leaves_nothing_pending",
     "RedunModel.C22.retry_rollback_keeps_returned_rows",
     "RedunModel.C22.pending_tags_lost_on_retry",
+    "RedunModel.C22.only_outermost_retries",
+    "RedunModel.C22.outermost_retries",
+    "RedunModel.C22.merged_wrapper_later_nested_calls_retry",
     "RedunModel.C22.known_retry_loses_argument_rows",
     "RedunModel.C22.known_nested_retry_drops_pending",
     "RedunModel.Db.recordCallNode_cons_any",
@@ -55,7 +58,9 @@ ASSUMPTIONS = [
     "value_store_min_size, process death right AFTER each commit that made a Value row durable, then: recovery result, "
     "every Value row readable (backend.get_value), one more run executes no task; plus the `tags` workload: task option "
     "tags=, apply_tags value / job / execution tags and run(tags=...), one OperationalError at EVERY writing commit in "
-    "turn, then all rows incl. Tag / TagEdit (up to uuids) compared with the undisturbed run",
+    "turn, then all rows incl. Tag / TagEdit (up to uuids) compared with the undisturbed run; plus the `multiarg` "
+    "workload: a call with one recorded and three new argument values (several nested record_value commits while the "
+    "CallNode is pending), one OperationalError at every writing commit, the run must not raise",
     "process death = everything not committed is lost; one process at a time per database",
     "transient failure = ONE OperationalError raised instead of a writing commit (quick tier) or before any statement "
     "(thorough tier), retried with db_retries_backoff = 0",
@@ -259,8 +264,9 @@ def fault_case(ctx, w: Workload, k: int, mode, cases, later=True):
         outcomes.append(res)
         gap_now = task_gap(c.repos[0])
         sig = SIG["keyerror"] if res == "!KeyError" else SIG["gap"] if gap_now else \
-            SIG["integrity"] if res == "!IntegrityError" else \
-            ("C22-transient-failure-not-survived", "run raised " + res + " after one transient OperationalError")
+            ("C22-transient-error-not-absorbed",
+             "the run raised " + res + " after ONE transient OperationalError although the fault-free run returns: the "
+             "retry did not absorb the error (e.g. a nested db_retry rolled back the rows its caller had pending)")
         ctx.violation(sig[0], sig[1], dict(label, fired=fired), expected=repr(exp)[:200], actual=res, kind="fault")
     else:
         outcomes.append("ok" if res == exp else "WRONG")
@@ -407,7 +413,7 @@ def run(ctx):
         w0 = ctl_db.guarded(ctx, "corpus", lambda: Workload(ctx, env, flags, corpus_program(small=not thorough), "corpus"))
         if w0 is not None:
             workloads.append(w0)
-        for i in range(ctx.n(1, 4)):
+        for i in range(ctx.n(0, 4)):
             w = ctl_db.guarded(ctx, f"gen{i}", lambda i=i: Workload(ctx, env, flags, ctl_db.gen_program(rng, ns="gc22g"), f"gen{i}"))
             if w is not None:
                 workloads.append(w)
@@ -422,6 +428,13 @@ def run(ctx):
             for k in range(rng_np[0], rng_np[1] + 1):
                 ctl_db.guarded(ctx, f"noprov:fault@{k}", lambda k=k: fault_case(ctx, wnp, k, "commit", cases))
         ctl_db.guarded(ctx, "vstore", lambda: value_store_cases(ctx, env, flags, cases))
+        # a call with one recorded and several NEW argument values: several nested record_value calls commit while
+        # the CallNode is pending; one transient error at EVERY writing commit in turn must be absorbed
+        wma = ctl_db.guarded(ctx, "multiarg", lambda: Workload(ctx, env, flags, ctl_db.MultiArgProgram(ns="gc22ma"), "multiarg"))
+        if wma is not None:
+            cases.append(wma.clean)
+            for k in range(1, wma.ncommits + 1):
+                ctl_db.guarded(ctx, f"multiarg:fault@{k}", lambda k=k: fault_case(ctx, wma, k, "commit", cases, later=False))
         # jobs that carry tags (task option tags=, apply_tags value / job / execution tags, run(tags=...)): one
         # transient error at EVERY writing commit in turn, then ALL rows incl. Tag / TagEdit against the baseline
         wtag = ctl_db.guarded(ctx, "tags", lambda: Workload(ctx, env, flags, ctl_db.TagProgram(ns="gc22tag"), "tags"))
@@ -438,7 +451,7 @@ def run(ctx):
             for k in crash_ks:
                 ctl_db.guarded(ctx, f"{w.label}:crash@{k}", lambda k=k: crash_case(ctx, w, k, cases))
             for k in fault_ks:
-                ctl_db.guarded(ctx, f"{w.label}:fault@{k}", lambda k=k: fault_case(ctx, w, k, "commit", cases))
+                ctl_db.guarded(ctx, f"{w.label}:fault@{k}", lambda k=k: fault_case(ctx, w, k, "commit", cases, later=thorough or k % 2 == 0))
             # statement-level faults: every statement in the thorough tier, a sample otherwise
             nst = 0
             # (the second half of a run is the resolve phase: record_call_node with its nested record_value calls)
